@@ -13,49 +13,67 @@ and outside the hit window; one hit event per accepted hit; completion once, at 
 reset / disable as configured; window, timeout and delayed control calls as absolute deadlines; templates read at
 reset / mode start and at every hit; one stored state per player) - plus the value ledger recomputed from the events
 the real device posted.
+Extension 2: persist_state together with hit window / timeout / delayed control events, extra balls, game end + second game,
+template-valued add / subtract / jump (event kwarg, machine variable; float, None, missing), events_when_hit / _complete
+overrides, state machine devices (harness/common/sm_c18.py, comparison only), and the translator tie
+(translate/logic_blocks_eff.py -> Gen/LogicBlockOps.lean, proved equal to the hand model in Lemmas/LogicBlockGen.lean).
 """
 import itertools
 import random
 
-from harness.common import leanproc
+from harness.common import leanproc, sm_c18
 from harness.common.shrink import ddmin
 from harness.common.util import InfraError
 
 ID = "C18"
 LEAN_MODULES = ["MpfVerif.Props.C18"]
 PROPS_FILE = "MpfVerif/Props/C18.lean"
-GEN = []
+def _gen_logic_block_ops():
+    from translate import logic_blocks_eff
+    return logic_blocks_eff.generate()
+
+
+GEN = [_gen_logic_block_ops]
 MANIFEST = {
-  "text": "Proof on a Lean model of Counter / Accrual / Sequence in its environment (block: enabled, completed, value, hit-window deadline, timeout deadline; environment: current values of the starting_count / count_complete_value templates, pending delayed control calls, one stored state per player for persist_state; full configuration: direction, interval, start and completion value, reset/disable on complete, hit window, timeout; ops count, step hit, advance_random with its random choice, enable, disable, reset, restart, add, subtract, jump, clock tick, each due delay callback as its own op (window end, timeout, delayed control call), delayed control event posted, template variable changed, mode stop / start for player p), for ALL configurations and ALL op sequences - hence all orders of same-instant callbacks - by induction: the counter value equals the ledger start-as-read-at-the-last-reset + interval*direction*(accepted hits since) (+ explicit add/subtract/jump; after a persist_state restore: the restored value), a hit is accepted and posts exactly one hit event iff the block is enabled and outside its window - whether it arrives directly or as a delayed call -, the completion event is posted exactly once per completion and exactly at the step that reaches the goal as the template evaluates then, after it the block is reset and/or disabled as configured, an accrual completes on any order of its steps (advance_random = a hit on an open step) and a sequence only on the strict order, a hit window always reopens at its deadline and the clock cannot pass a due delay, a delayed control call runs only at its due instant, at most once, and not at all after its mode stopped, and persist_state gives the player exactly the state stored when his mode last stopped while no op touches another player's stored state. The model is tied to mpf/devices/logic_blocks.py (+ the control-event plumbing of device_manager.py / mode.py) by a correspondence run on real devices (machine-wide, inside a non-game mode, inside a game mode of a real multi-player game) on the 1/8 s grid, comparing value/enabled/completed, every player's stored state and every posted logicblock_*_hit/_complete/_updated/timeout event with its arguments after every op.",
-  "note": "Trusted: Lean kernel + {propext, Classical.choice, Quot.sound}; the hand-written model Model/LogicBlock.lean (validated only by the differential run); DelayManager/clock (C13), event dispatch order (C01), the mode lifecycle (C07), the game/player rotation (C06/C11) and template evaluation (C16) are used, not verified here. Same-instant callback order and the random choice of advance_random are taken from the implementation and validated (not-due / not-open choices are refused by model and reference). count_interval is a plain int in config_spec (not a template). The persist_state stream runs without hit window / timeout / delayed events (game flow is not on the grid); a restored block does not re-arm its timeout (follows the code). Hits are not guarded by `completed` in the code (a completed, still enabled counter keeps counting): the statement follows the code and the property text (enabled and outside the window). State machine devices (state_machine.py) are not covered.",
-  "technique": "Lean 4 theorems (case analysis per step + induction over the op list, trace ledger, scheduler as input) on a hand model + differential correspondence with real devices and an independent Python reference oracle",
-  "translated": False,
+  "text": "Proof on a Lean model of Counter / Accrual / Sequence in its environment (block: enabled, completed, value, hit-window deadline, timeout deadline; environment: current values of the starting_count / count_complete_value templates, pending delayed control calls, one stored state per player for persist_state, game end; full configuration: direction, interval of either sign, start and completion value, reset/disable on complete, hit window, timeout; ops count, step hit, advance_random with its random choice, enable, disable, reset, restart, add, subtract, jump with the value their template evaluated to (or ignored when it gave None), clock tick, each due delay callback as its own op (window end, timeout, delayed control call), delayed control event posted, template variable changed, mode stop / start for player p, game over + new game), for ALL configurations and ALL op sequences - hence all orders of same-instant callbacks - by induction: the counter value equals the ledger start-as-read-at-the-last-reset + interval*direction*(accepted hits since) (+ explicit add/subtract/jump; after a persist_state restore: the restored value), a hit is accepted and posts exactly one hit event iff the block is enabled and outside its window - whether it arrives directly or as a delayed call -, the completion event is posted exactly once per completion and exactly at the step that reaches the goal as the template evaluates then, after it the block is reset and/or disabled as configured, an accrual completes on any order of its steps (advance_random = a hit on an open step) and a sequence only on the strict order, a hit window always reopens at its deadline and the clock cannot pass a due delay, a delayed control call runs only at its due instant, at most once, and not at all after its mode stopped, persist_state gives the player exactly the state stored when his mode last stopped (next ball, extra ball) while no op of a game touches another player's stored state, and a new game starts every player with a fresh block. Tie to the source, two ways: (1) TRANSLATOR: thirteen methods of mpf/devices/logic_blocks.py (Counter.count, check_complete, get_start_value, stop_ignoring_hits; LogicBlock.enable, disable, reset, restart, complete, _logic_block_timeout, _logic_block_timer_start, post_update_event, _post_hit_events) are regenerated on every run as programs for a stateful interpreter (Model/PyStore.lean: attribute and player-state store, configuration and evaluated templates as data, delays and event posts as a log of effects) and proved to compute exactly the state and the event list of the hand model's step for count / enable / disable / reset / restart / complete / check_complete / timeout callback / window callback in EVERY state of a counter (counter_methods_refine_source, reachable_count_refines_source); (2) CORRESPONDENCE on real devices (machine-wide, inside a non-game mode, inside a game mode of a real multi-player game with hit window, timeout and delayed control events, ball drains, extra balls, game end and a second game; events_when_hit / events_when_complete overrides incl. the same event twice; add / subtract / jump values from event kwargs or a machine variable incl. float and None; start / goal variables set to float and None) on the 1/8 s grid, comparing value/enabled/completed, every player's stored state and every posted hit / complete / updated / timeout event with its arguments after every op. State machine devices (mpf/devices/state_machine.py: states, transitions with several sources / events, events_when_started / stopped / transitioning, two transitions on one event, persist_state per player, new game) have their own small model (Model/StateMachine.lean) compared with the real device after every op; the property's text does not name them, so they are never reported through the oracle.",
+  "note": "Trusted: Lean kernel + {propext, Classical.choice, Quot.sound}; translate/logic_blocks_eff.py + Model/PyStore.lean (Python ast -> data for a fixed interpreter) with the hand-written meaning of logged actions in Model/LogicBlockGen.lean (`applyEff`, following mpf/core/delays.py; an action without a meaning raises a flag the theorem proves is never raised); hypotheses of the tie: the block is a counter (reset's start value is Counter.get_start_value; accrual / sequence methods hit / advance_random are tied by correspondence only), hit_value = +-count_interval as Counter._initialize computes it (checked on the real device of every case), events_when_hit / events_when_complete non-empty (the validator's defaults), ModeDevice.enable empty (checked by the translator). The rest of Model/LogicBlock.lean (accrual, sequence, adjust, clock / delay deadlines, mode and game environment) is validated by the differential run only. DelayManager/clock (C13), event dispatch order (C01), the mode lifecycle (C07), the game/player rotation (C06/C11) and template evaluation (C16: the harness computes what a template_int gives - None -> 0 resp. ignored, float -> int()) are used, not verified here. Same-instant callback order and the random choice of advance_random are taken from the implementation and validated. Observed, outside the property's text (counted, not failed on): a restored persisted block that is enabled does not re-arm its logic_block_timeout (model follows the code; witness theorem); the `hits` argument of the hit event is computed against the start template as it evaluates NOW and goes negative after the variable changed; a state machine with two transitions on one event out of one state runs both handlers, the second from a state that is not one of its sources (MPF's dispatcher runs a copy of the handler list). Hits are not guarded by `completed` in the code (a completed, still enabled counter keeps counting): the statement follows the code and the property text.",
+  "technique": "Lean 4 theorems (case analysis per step + induction over the op list, trace ledger, scheduler as input) on a hand model; thirteen methods machine-translated from the source on every run and proved equal to the hand model (deep embedding with store + effect log); differential correspondence with real devices (incl. state machines) and an independent Python reference oracle",
+  "translated": True,
 }
 RULE = ("a case = one block configuration (kind, start, interval, direction, goal, reset/disable on complete, window, "
         "timeout in 1/8 s ticks, steps with shared and duplicated step events, delays of the {event: delay} control "
-        "events, template-valued start / goal, machine-wide / mode-owned / game-mode-owned with persist_state and 1-3 "
-        "players) + 6-28 ops (count / step hit / shared event / advance_random / enable / disable / reset / restart / "
-        "add / subtract / jump / the delayed variant of a control event / template variable set / advance n ticks / "
-        "mode stop / mode start / ball drain to the next player) biased to the window edge, the timeout instant, delayed "
-        "calls landing on both, goals 1-4 hits away and counting down through zero; non-trivial = at least one hit was "
-        "rejected (disabled or inside the window), a completion happened, a timeout fired, a delayed call ran or was "
-        "dropped, or a stored state was restored; distinct = canonical JSON of (config, ops); plus an oracle-only stream "
-        "probing both deadlines 1 ms early and 1 ms late")
+        "events, template-valued start / goal / control values, events_when_hit / events_when_complete overrides, "
+        "machine-wide / mode-owned / game-mode-owned with persist_state and 1-3 players) + 6-28 ops (count / step hit / "
+        "shared event / advance_random / enable / disable / reset / restart / add / subtract / jump - constant, kwarg- or "
+        "variable-valued incl. float, None, missing - / the delayed variant of a control event / template variable set "
+        "(incl. float, None) / advance n ticks / mode stop / mode start / ball drain to the next player / drain with an "
+        "extra ball / game end + new game) biased to the window edge, the timeout instant, delayed calls landing on both, "
+        "goals 1-4 hits away and counting down through zero; non-trivial = at least one hit was rejected (disabled or "
+        "inside the window), a completion happened, a timeout fired, a delayed call ran or was dropped, or a stored state "
+        "was restored; distinct = canonical JSON of (config, ops); plus an oracle-only stream probing both deadlines 1 ms "
+        "early and 1 ms late; plus state-machine cases (2-4 states, 1-6 transitions incl. two on one event and chains, "
+        "6-22 ops: event / mode stop / start / drain / extra ball / new game; non-trivial = a transition or a restore)")
 TRUSTED = [
-    "Model/LogicBlock.lean is hand-written; tied to mpf/devices/logic_blocks.py by correspondence on every run",
+    "Model/LogicBlock.lean is hand-written; its counter methods are proved equal to the translated source "
+    "(Gen/LogicBlockOps.lean, regenerated on every run), the rest is tied to mpf/devices/logic_blocks.py by correspondence",
+    "translate/logic_blocks_eff.py, Model/PyStore.lean (interpreter) and applyEff of Model/LogicBlockGen.lean (meaning of "
+    "delay / event / store actions)",
     "modelled, not verified: DelayManager + clock (deadline = now + ms/1000 on the dyadic grid), event queue order, "
     "mode start/stop (handlers removed, device_removed_from_mode called, mode delays cleared), game/player rotation, "
-    "template evaluation of `machine.x` / `current_player.x` / constants",
+    "template evaluation of `machine.x` / `current_player.x` / event kwargs / constants (None -> default, float -> int())",
     "the order of callbacks due at the same instant and random.shuffle are inputs taken from the implementation",
+    "Model/StateMachine.lean is hand-written; tied to mpf/devices/state_machine.py by correspondence only",
 ]
-ASSUMPTIONS = ["integer-valued template variables; control values (add/subtract/jump) constant; times on the 1/8 s grid",
-               "persist_state cases: no hit window, timeout or delayed control events; one game, no extra balls",
-               "machine-wide blocks with a timeout are configured with enable_events (boot is not on the grid)"]
+ASSUMPTIONS = ["template variables hold ints, floats or None (strings crash int(): not generated); times on the 1/8 s grid",
+               "game cases: the fake-ball scaffolding of MpfFakeGameTestCase (drain = ball_drain relay event), one tick "
+               "passes after every ball start",
+               "machine-wide blocks with a timeout are configured with enable_events (boot is not on the grid)",
+               "state machines without show_when_active"]
 
 TICK = 0.125
 NAME = "blk"
 ACTS = ("count", "enable", "disable", "reset", "restart", "advr")
-VAR_START, VAR_GOAL = "c18_st", "c18_goal"
+VAR_START, VAR_GOAL, VAR_CTL = "c18_st", "c18_goal", "c18_ctl"
 
 
 def acts_of(cfg):
@@ -248,6 +266,12 @@ class RefBlock:
             self.start = op[1]
         elif name == "setgoal":
             self.goal = op[1]
+        elif name == "ctlnone":
+            pass                                  # add / subtract / jump whose value template gave None: ignored
+        elif name == "newgame":                   # the game ended: every player's stored state is gone with the players
+            if self.loaded:
+                self.do_unload()
+            self.store, self.cur = {}, 0
         elif not self.loaded:
             if name == "load":
                 self.do_load(self.cur)
@@ -365,6 +389,10 @@ def block_yaml(cfg):
         L.append("    persist_state: true")
     if cfg["timeout"]:
         L.append("    logic_block_timeout: %s" % ms(cfg["timeout"]))
+    if cfg.get("ev_hit"):
+        L.append("    events_when_hit: %s" % ", ".join(cfg["ev_hit"]))
+    if cfg.get("ev_done"):
+        L.append("    events_when_complete: %s" % ", ".join(cfg["ev_done"]))
     if k == "counter":
         pv = "current_player" if cfg["where"] == "game" else "machine"
         L += ["    starting_count: %s" % ("%s.%s" % (pv, VAR_START) if cfg.get("ph_start") else "%d" % cfg["start"]),
@@ -380,7 +408,7 @@ def block_yaml(cfg):
             L.append("    control_events:")
             for act, v in ctl:
                 L += ["      - action: %s" % {"add": "add", "sub": "subtract", "set": "jump"}[act],
-                      "        event: %s" % ctl_event(act, v), "        value: %d" % v]
+                      "        event: %s" % ctl_event(act, v), "        value: %s" % ctl_value(v)]
     else:
         L.append("    events:")
         for i in range(cfg["steps"]):
@@ -396,6 +424,8 @@ def vars_yaml(cfg):
         mv.append((VAR_START, cfg["start"]))
     if cfg.get("ph_goal"):
         mv.append((VAR_GOAL, cfg["goal"]))
+    if any(v == "mv" for _, v in cfg.get("controls", [])):
+        mv.append((VAR_CTL, 1))
     if mv:
         L.append("machine_vars:")
         for k, v in mv:
@@ -406,7 +436,29 @@ def vars_yaml(cfg):
 
 
 def ctl_event(act, v):
+    if isinstance(v, str):                                  # "kw": value template reads the event's kwarg `amount`;
+        return "%s_%s_%s" % (NAME, act, v)                  # "mv": reads the machine variable c18_ctl
     return "%s_%s_%s" % (NAME, act, ("m%d" % -v) if v < 0 else str(v))
+
+
+def ctl_value(v):
+    return {"kw": "amount", "mv": "machine.%s" % VAR_CTL}.get(v) if isinstance(v, str) else "%d" % v
+
+
+def py_int(raw, default=0):
+    """what a template_int evaluates to (`BaseTemplate.evaluate`): None / missing -> the default, else int() (truncation)"""
+    return default if raw is None or raw == "missing" else int(raw)
+
+
+def hit_events_of(cfg):
+    """the configured hit events (the default of a counter is the deprecated counter_<name>_hit plus logicblock_<name>_hit)"""
+    if cfg.get("ev_hit"):
+        return list(cfg["ev_hit"])
+    return (["counter_%s_hit" % NAME] if cfg["kind"] == "counter" else []) + ["logicblock_%s_hit" % NAME]
+
+
+def done_events_of(cfg):
+    return list(cfg["ev_done"]) if cfg.get("ev_done") else ["logicblock_%s_complete" % NAME]
 
 
 class _Hooks:
@@ -475,7 +527,7 @@ class RealBlock:
                 mode = "mode:\n  start_events: m1_start\n  stop_events: m1_stop\n  game_mode: false\n" + body
                 return VMachine("modes:\n  - m1\n" + vars_yaml(cfg), modes={"m1": mode})
             if where == "game":
-                main = ("modes:\n  - m1\ngame:\n  balls_per_game: 9\n  max_players: 4\nswitches:\n  s_start:\n"
+                main = ("modes:\n  - m1\ngame:\n  balls_per_game: 60\n  max_players: 4\nswitches:\n  s_start:\n"
                         "    number: 1\n    tags: start\n") + vars_yaml(cfg)
                 mode = "mode:\n  start_events: ball_started, m1_start\n  stop_events: m1_stop\n  priority: 200\n" + body
                 return VMachine(main, modes={"m1": mode}, game=True)
@@ -500,23 +552,51 @@ class RealBlock:
         self.sched = []
         self.choice = None
         self.next_player = None
-        for ev, tag in (("logicblock_%s_updated" % NAME, "U"), ("logicblock_%s_hit" % NAME, "H"),
-                        ("logicblock_%s_complete" % NAME, "C"), ("%s_timeout" % NAME, "T")):
+        self.hit_names, self.done_names = hit_events_of(cfg), done_events_of(cfg)
+        for ev, tag in (("logicblock_%s_updated" % NAME, "U"), ("%s_timeout" % NAME, "T")):
             m.events.add_handler(ev, self._make(tag))
+        for ev in dict.fromkeys(self.hit_names):
+            m.events.add_handler(ev, self._make_named("h", ev))
+        for ev in dict.fromkeys(self.done_names):
+            m.events.add_handler(ev, self._make_named("c", ev))
+        self.init_sched = []
         if where == "game":
             def _add_ball(**kwargs):
                 m.playfield.balls += 1
                 m.playfield.available_balls += 1
             m.playfield.add_ball = _add_ball
             m.ball_controller.num_balls_known = 3
-            for _ in range(cfg.get("players", 1)):
-                self.vm.hit_switch("s_start", 1)
-                self.vm.hit_switch("s_start", 0)
-                self.settle()
-            self.vm.advance(TICK)
+            self.start_game()
+            self.init_sched = self.sched
+
+    def start_game(self):
+        """start presses for all players, then one tick (the block exists from the first ball start on: the callbacks
+        that ran in that tick are reported in self.sched like those of an `adv 1`)"""
+        cfg, m = self.cfg, self.vm.machine
+        _Hooks.fired = []
+        for _ in range(cfg.get("players", 1)):
+            self.vm.hit_switch("s_start", 1)
+            self.vm.hit_switch("s_start", 0)
             self.settle()
-            if m.game is None or len(m.game.player_list) != cfg.get("players", 1) or not m.modes["m1"].active:
-                raise InfraError("game with %d players did not start" % cfg.get("players", 1))
+        for _ in range(40):
+            if m.game is not None and m.modes["m1"].active:
+                break
+            self.vm.run()
+        self.settle()
+        if m.game is None or not m.modes["m1"].active:
+            raise InfraError("game did not start before the first tick")
+        self.tick_logged()
+        if m.game is None or len(m.game.player_list) != cfg.get("players", 1) or not m.modes["m1"].active:
+            raise InfraError("game with %d players did not start" % cfg.get("players", 1))
+
+    def tick_logged(self, n=1):
+        t0 = self.vm.now()
+        self.vm.advance(n * TICK)
+        self.settle()
+        self.sched = []
+        for t, cb, choice in _Hooks.fired:
+            off = (t - t0) / TICK
+            self.sched.append((int(off) if off == int(off) else off, KIND_OF_CALLBACK.get(cb, "?" + cb), choice))
 
     def settle(self):
         for _ in range(8):
@@ -526,6 +606,39 @@ class RealBlock:
         def handler(**kwargs):
             self.log.append((tag, kwargs))
         return handler
+
+    def _make_named(self, tag, name):
+        def handler(**kwargs):
+            self.log.append((tag, kwargs, name))
+        return handler
+
+    def collapsed(self):
+        """the log with every run of configured hit (completion) events folded into one H (C) per complete round of the
+        configured list - each configured event once, in order, all with the same arguments; anything else is X"""
+        out, i, log = [], 0, self.log
+        while i < len(log):
+            tag = log[i][0]
+            if tag not in ("h", "c"):
+                out.append((tag, log[i][1]))
+                i += 1
+                continue
+            j = i
+            while j < len(log) and log[j][0] == tag:
+                j += 1
+            names = self.hit_names if tag == "h" else self.done_names
+            run, n, ok = log[i:j], len(names), True
+            if len(run) % n:
+                ok = False
+            for a in range(0, len(run) - n + 1, n):
+                chunk = run[a:a + n]
+                if [c[2] for c in chunk] != names or any(c[1] != chunk[0][1] for c in chunk):
+                    ok = False
+            if ok:
+                out += [("H" if tag == "h" else "C", run[a][1]) for a in range(0, len(run), n)]
+            else:
+                out.append(("X", {"%s=%s" % (tag, "+".join(c[2] for c in run)): 1}))
+            i = j
+        return out
 
     def fmt_value(self, v):
         if isinstance(v, list):
@@ -559,7 +672,7 @@ class RealBlock:
 
     def observe(self):
         d = self.dev
-        evs = "".join(" " + self.fmt_event(t, kw) for t, kw in self.log)
+        evs = "".join(" " + self.fmt_event(t, kw) for t, kw in self.collapsed())
         self.log = []
         if d._state is None:
             return "unloaded%s |%s" % (self.stored(), evs)
@@ -621,18 +734,49 @@ class RealBlock:
                     self.settle()
                 if vm.machine.modes["m1"].active:
                     raise InfraError("mode m1 did not stop")
+            elif name == "ctl":
+                act, form, raw = op[1], op[2], op[3]
+                if form == "mv":
+                    vm.machine.variables.set_machine_var(VAR_CTL, raw)
+                    vm.run()
+                    self.log = []
+                    vm.post(ctl_event(act, "mv"))
+                elif raw == "missing":
+                    vm.post(ctl_event(act, "kw"))
+                else:
+                    vm.post(ctl_event(act, "kw"), amount=raw)
+                vm.run()
+            elif name == "newgame":
+                m = vm.machine
+                m.game.end_game()
+                self.settle()
+                vm.advance(TICK)
+                self.settle()
+                if m.game is not None or m.modes["m1"].active:
+                    raise InfraError("game did not end")
+                m.playfield.balls = m.playfield.available_balls = 0       # the (fake) ball of the ended game is home
+                self.start_game()
             elif name == "drain":
                 m = vm.machine
+                if len(op) > 1:
+                    m.game.player.extra_balls += 1
                 for _ in range(m.game.balls_in_play):
                     r = vm.tc.post_relay_event_with_params("ball_drain", balls=1)
                     m.playfield.balls -= r["balls"]
                     m.playfield.available_balls -= r["balls"]
                 self.settle()
-                vm.advance(TICK)
+                for _ in range(40):            # the next ball starts without time passing, after a few loop iterations
+                    if m.game is not None and m.game.player is not None and m.modes["m1"].active:
+                        break
+                    vm.run()
                 self.settle()
                 if m.game is None or m.game.player is None or not m.modes["m1"].active:
-                    raise InfraError("no next ball after drain")
+                    raise InfraError("no next ball right after the drain")
                 self.next_player = m.game.player.index
+                _Hooks.fired = []
+                self.tick_logged()
+                if m.game is None or m.game.player is None or not m.modes["m1"].active:
+                    raise InfraError("no next ball after drain")
             else:
                 vm.post("%s_%s" % (NAME, name))
                 vm.run()
@@ -658,7 +802,7 @@ def gen_cfg(r, where=None, flavour=None):
     """flavour: None (mixed) | 'delay' (delayed control events) | 'tmpl' (template-valued start / goal) |
     'steps' (shared / duplicated step events, advance_random) | 'down' (counting down through zero)"""
     kind = r.choice(["counter", "counter", "counter", "accrual", "sequence"])
-    if flavour in ("tmpl", "down"):
+    if flavour in ("tmpl", "down", "ctl"):
         kind = "counter"
     if flavour == "steps":
         kind = r.choice(["accrual", "accrual", "sequence"])
@@ -694,6 +838,9 @@ def gen_cfg(r, where=None, flavour=None):
                                                        (cfg["goal"] or 0) - delta})]
         if r.random() < 0.3:
             cfg["controls"] = []
+        if flavour in ("tmpl", "ctl") or r.random() < 0.15:     # value templates: event kwarg `amount` / machine variable
+            forms = [[a, f] for a in ("add", "sub", "set") for f in ("kw", "mv") if r.random() < (0.8 if flavour == "ctl" else 0.4)]
+            cfg["controls"] = cfg["controls"] + (forms or [["add", "kw"]])
         if flavour == "tmpl" or (flavour is None and r.random() < 0.15):
             x = r.random()
             cfg["ph_start"] = x < 0.7
@@ -710,6 +857,12 @@ def gen_cfg(r, where=None, flavour=None):
                 cfg["shared"].append(sorted(r.sample(range(cfg["steps"]), r.choice([2, 3]))))
         if r.random() < (0.5 if flavour == "steps" else 0.15):
             cfg["dups"] = sorted({r.randrange(cfg["steps"]) for _ in range(2)})
+    if r.random() < (0.5 if flavour == "ctl" else 0.15):
+        cfg["ev_hit"] = r.choice([["my_hit"], ["my_hit", "my_hit2"], ["my_hit", "my_hit2", "my_hit"],
+                                  ["logicblock_%s_hit" % NAME], ["my_hit", "logicblock_%s_hit" % NAME]])
+    if r.random() < (0.5 if flavour == "ctl" else 0.15):
+        cfg["ev_done"] = r.choice([["my_done"], ["my_done", "my_done2"], ["my_done", "my_done"],
+                                   ["my_done", "logicblock_%s_complete" % NAME]])
     if where == "machine" and cfg["timeout"]:
         cfg["start_enabled"] = False
     if flavour == "delay" or (flavour is None and r.random() < 0.25):
@@ -722,10 +875,13 @@ def gen_cfg(r, where=None, flavour=None):
 
 
 def gen_game_cfg(r):
-    cfg = gen_cfg(r, "game", r.choice([None, "tmpl", "steps", None]))
-    cfg.pop("delays", None)
-    cfg["window"] = 0
-    cfg["timeout"] = 0
+    cfg = gen_cfg(r, "game", r.choice([None, "tmpl", "steps", None, "delay", None]))
+    if r.random() < 0.25:                     # the first C18 extension's sub-space: no timers at all
+        cfg.pop("delays", None)
+        cfg["window"] = 0
+        cfg["timeout"] = 0
+    elif r.random() < 0.5 and not cfg["timeout"]:
+        cfg["timeout"] = r.choice([1, 2, 3, 4, 8])
     cfg["persist"] = r.random() < 0.85
     cfg["players"] = r.choice([1, 2, 2, 3, 3])
     if r.random() < 0.5:                      # a completed block that stays completed on the next ball
@@ -766,22 +922,35 @@ def gen_ops(r, cfg, n):
         elif x < 0.45 and delays:
             ops.append(["dpost", r.choice(sorted(delays))])
         elif x < 0.7:
-            if where == "game":
-                ops.append(["drain"] if r.random() < 0.6 else ["hit", 0] if kind != "counter" else ["count"])
+            y = r.random()
+            if where == "game" and y < 0.4:
+                ops.append(["drain", "xb"] if r.random() < 0.25 else ["drain"])     # xb: the player has an extra ball
+            elif where == "game" and y < 0.47:
+                ops.append(["newgame"])
+            elif where == "game" and not (w or t or delays):
+                ops.append(["hit", 0] if kind != "counter" else ["count"])
             else:
                 ops.append(["adv", r.choice(edges) if r.random() < 0.8 else r.randint(1, 9)])
         elif x < 0.78 and kind == "counter" and (cfg.get("controls") or cfg.get("ph_start") or cfg.get("ph_goal")):
             y = r.random()
+            odd = lambda: r.choice([None, 2.5, -1.5, 0.5, None])     # a template_int gives 0 for None and int() of a float
             if cfg.get("ph_start") and y < 0.4:
-                ops.append(["setstart", r.choice([0, 1, 2, 5, -2, cfg["start"]])])
+                ops.append(["setstart", odd() if r.random() < 0.2 else r.choice([0, 1, 2, 5, -2, cfg["start"]])])
                 if r.random() < 0.5:
                     ops.append(["reset"])
             elif cfg.get("ph_goal") and y < 0.8:
                 base = cfg["start"]
-                ops.append(["setgoal", base + delta * r.choice([0, 1, 2, 3]) + r.choice([0, 0, 1, -1])])
+                ops.append(["setgoal", odd() if r.random() < 0.2 else
+                            base + delta * r.choice([0, 1, 2, 3]) + r.choice([0, 0, 1, -1])])
             elif cfg.get("controls"):
                 c = r.choice(cfg["controls"])
-                ops.append([c[0], c[1]])
+                if isinstance(c[1], str):
+                    raw = r.choice([1, 2, 3, -1, 0, -2, 2.5, -1.5, None] + (["missing"] if c[1] == "kw" else []))
+                    if c[0] == "set" and r.random() < 0.5 and cfg["goal"] is not None:
+                        raw = cfg["goal"]
+                    ops.append(["ctl", c[0], c[1], raw])
+                else:
+                    ops.append([c[0], c[1]])
         elif x < 0.84:
             # a machine-wide block that starts enabled has no enable event (only restart enables it again)
             ops.append(["enable"] if has_enable else ["restart"])
@@ -864,16 +1033,27 @@ def expand(cfg, op, env, sched, choice, next_player):
     if name == "setstart":
         if cfg["where"] == "game":
             env.pstart[env.cur] = op[1]
-        return [("setstart %d" % op[1], (op, None, None))]
+        return [("setstart %d" % py_int(op[1]), (["setstart", py_int(op[1])], None, None))]
     if name == "setgoal":
-        return [("setgoal %d" % op[1], (op, None, None))]
+        return [("setgoal %d" % py_int(op[1]), (["setgoal", py_int(op[1])], None, None))]
+    if name == "ctl":
+        eff = None if op[3] is None or op[3] == "missing" else int(op[3])     # evaluate_or_none + int()
+        if eff is None:
+            return [("ctlnone", (["ctlnone"], None, None))]
+        return [("%s %d" % (op[1], eff), ([op[1], eff], None, None))]
     if name == "drain":
-        p = next_player if next_player is not None else (env.cur + 1) % cfg.get("players", 1)
-        want_p = (env.cur + 1) % cfg.get("players", 1)          # the reference rotates by itself
+        extra = len(op) > 1                                       # the player has an extra ball: he shoots again
+        want_p = env.cur if extra else (env.cur + 1) % cfg.get("players", 1)   # the reference rotates by itself
+        p = next_player if next_player is not None else want_p
         env.cur = p
         return [("stopmode", (["stopmode"], None, None)),
-                ("setstart %d" % env.start_of(p), (["setstart", env.start_of(want_p)], None, None)),
-                ("startmode %d" % p, (["startmode", want_p], None, None))]
+                ("setstart %d" % py_int(env.start_of(p)), (["setstart", py_int(env.start_of(want_p))], None, None)),
+                ("startmode %d" % p, (["startmode", want_p], None, None))] + expand(cfg, ["adv", 1], env, sched, None, None)
+    if name == "newgame":
+        env.cur, env.pstart = 0, {}
+        return [("stopmode", (["stopmode"], None, None)), ("newgame", (["newgame"], None, None)),
+                ("setstart %d" % cfg["start"], (["setstart", cfg["start"]], None, None)),
+                ("startmode 0", (["startmode", 0], None, None))] + expand(cfg, ["adv", 1], env, sched, None, None)
     if name == "unload":
         return [("stopmode", (["stopmode"], None, None))]
     if name == "load":
@@ -913,6 +1093,8 @@ def classify(cfg, op, impl, want):
     sched_flags = [e for e in evw if e.startswith("!")]
     if sched_flags:
         return "%s:%s" % (k, sched_flags[0][1:].split(":")[0])
+    if any(e.startswith("X") for e in evi):
+        return "%s:configured-events-not-once-each" % k
     for tag, nm in (("C", "complete-events"), ("H", "hit-events"), ("S", "hit-events"), ("T", "timeout-events")):
         if [e for e in evi if e.startswith(tag)] != [e for e in evw if e.startswith(tag)]:
             return "%s:%s" % (k, nm)
@@ -943,21 +1125,29 @@ class Ledger:
 
     def step(self, op, impl):
         name = op[0]
+        if name == "ctl":
+            if op[3] is None or op[3] == "missing":
+                name, op = "ctlnone", ["ctlnone"]
+            else:
+                name, op = op[1], [op[1], int(op[3])]
         if name == "setstart":
-            self.start = op[1]
-            self.pstart[self.cur] = op[1]
+            self.start = py_int(op[1])
+            self.pstart[self.cur] = py_int(op[1])
         if impl.startswith("crash"):
             return None
         st, ev = impl.split(" |", 1)
         evs = ev.split()
-        if name in ("unload", "drain") and self.c.get("persist") and not getattr(self, "unloaded", False):
+        if name in ("unload", "drain", "newgame") and self.c.get("persist") and not getattr(self, "unloaded", False):
             self.saved[self.cur] = (self.base, self.hits)
         if name == "unload":
             self.unloaded = True
         if name == "drain":
-            self.cur = (self.cur + 1) % self.c.get("players", 1)
+            if len(op) == 1:
+                self.cur = (self.cur + 1) % self.c.get("players", 1)
             self.start = self.pstart.get(self.cur, self.c["start"])
-        if name in ("load", "drain"):
+        if name == "newgame":
+            self.cur, self.saved, self.pstart, self.start = 0, {}, {}, self.c["start"]
+        if name in ("load", "drain", "newgame"):
             self.unloaded = False
             if self.c.get("persist") and self.cur in self.saved:
                 self.base, self.hits = self.saved[self.cur]
@@ -976,7 +1166,7 @@ class Ledger:
         # (visible as an `updated` event showing the start value right after a non-hit) - events are scanned in order
         if name in ("reset", "restart") or (name == "load" and not self.c.get("persist")):
             self.base, self.hits = self.start, 0
-        elif name == "adv" or nh or "C" in evs:
+        elif name in ("adv", "drain", "newgame") or nh or "C" in evs:
             self.scan(evs)
         return self.base + self.delta * self.hits
 
@@ -1015,6 +1205,15 @@ def execute(cfg, ops, model=None, stop_at_first=True):
             ref.op(["startmode", 0])
             if model is not None:
                 model.ask("startmode 0")
+            for line, a in expand(cfg, ["adv", 1], env, real.init_sched, None, None):   # the tick after the start
+                if a is not None:
+                    ref.op(*a)
+                if model is not None:
+                    model.ask(line)
+        if cfg["kind"] == "counter" and model is not None and ops:
+            # hypothesis of counter_methods_refine_source, checked on the real object: hit_value = +-count_interval
+            comps.append((0, "hit_value=%r" % (real.dev.hit_value,),
+                          "hit_value=%d" % (-abs(cfg["interval"]) if cfg["down"] else abs(cfg["interval"]))))
         first = real.observe()
         want0 = ref.line()
         if first.split(" |")[0] != want0.split(" |")[0]:
@@ -1044,10 +1243,22 @@ def execute(cfg, ops, model=None, stop_at_first=True):
                 insts = [off for off, _, _ in real.sched]
                 if len(set(insts)) < len(insts):
                     flags.add("same-instant-callbacks")
-            if op[0] in ("unload", "drain") and cfg.get("persist"):
+            if op[0] in ("unload", "drain", "newgame") and cfg.get("persist"):
                 flags.add("state-stored")
+            if op[0] == "newgame":
+                flags.add("second-game")
+            if op[0] == "drain" and len(op) > 1:
+                flags.add("extra-ball")
+            if op[0] == "ctl":
+                flags.add("ctl-none" if op[3] in (None, "missing") else "ctl-float" if isinstance(op[3], float) else "ctl-int")
             if op[0] in ("load", "drain") and cfg.get("persist") and " U:" in want and want.count(" U:") == 1:
                 flags.add("state-restored")
+            if "state-restored" in flags and op[0] in ("load", "drain") and cfg["timeout"] and " e=1 c=0" in impl \
+                    and want.count(" U:") == 1:
+                flags.add("obs:restored_enabled_block_timeout_not_rearmed")
+            for e in impl.split(" |", 1)[1].split() if " |" in impl else []:
+                if e.startswith("H:") and e.count(":") == 3 and e.split(":")[2].startswith("-"):
+                    flags.add("obs:hits_kwarg_negative")
             if impl != want and failure is None:
                 failure = (classify(cfg, op, impl, want), i, impl, want)
             if led is not None and failure is None:
@@ -1069,10 +1280,10 @@ def run_case(ctx, model, cfg, ops, sample=True):
     for op in ops:
         ctx.count("op_" + op[0])
     for f in flags:
-        ctx.count("branch_" + f)
+        ctx.count("observed_outside_property_" + f[4:] if f.startswith("obs:") else "branch_" + f)
     ctx.count("kind_" + cfg["kind"])
     ctx.count("where_" + cfg["where"])
-    for key in ("delays", "ph_start", "ph_goal", "shared", "dups", "persist"):
+    for key in ("delays", "ph_start", "ph_goal", "shared", "dups", "persist", "ev_hit", "ev_done"):
         if cfg.get(key):
             ctx.count("cfg_" + key)
     for i, impl, mod in comps:
@@ -1170,6 +1381,31 @@ CORPUS += [
 ]
 
 
+CORPUS += [
+    # persist_state + timeout + window: the restored enabled block has no timeout running (observation), the fresh block of
+    # player 1 times out in the tick after its start; extra ball; game end and a second game (everything fresh)
+    ({"kind": "counter", "where": "game", "start": 0, "interval": 1, "down": False, "goal": 9, "reset_on_complete": False,
+      "disable_on_complete": False, "window": 2, "timeout": 1, "steps": 0, "start_enabled": True, "controls": [],
+      "persist": True, "players": 2, "delays": {"count": 1}},
+     [["enable"], ["count"], ["count"], ["dpost", "count"], ["drain"], ["count"], ["adv", 2], ["drain"], ["adv", 4], ["count"],
+      ["drain", "xb"], ["count"], ["enable"], ["adv", 1], ["newgame"], ["count"], ["drain"], ["count"]]),
+    # value templates of add / subtract / jump: event kwarg (int, float, None, missing) and machine variable; overrides of
+    # the hit and completion events (the same event twice in the hit list, two completion events)
+    ({"kind": "counter", "where": "machine", "start": 1, "interval": -2, "down": False, "goal": 6, "reset_on_complete": True,
+      "disable_on_complete": False, "window": 0, "timeout": 0, "steps": 0, "start_enabled": True,
+      "controls": [["add", "kw"], ["sub", "mv"], ["set", "kw"], ["set", "mv"]], "ev_hit": ["my_hit", "my_hit2", "my_hit"],
+      "ev_done": ["my_done", "my_done2"]},
+     [["count"], ["ctl", "add", "kw", 2.5], ["ctl", "add", "kw", None], ["ctl", "add", "kw", "missing"], ["ctl", "sub", "mv", -1.5],
+      ["ctl", "sub", "mv", None], ["ctl", "set", "kw", 6], ["count"], ["ctl", "set", "mv", 5], ["count"]]),
+    # start / goal variables set to None (-> 0) and to a float (-> int()); `hits` of the hit event goes negative
+    ({"kind": "counter", "where": "machine", "start": 2, "interval": 1, "down": False, "goal": 5, "reset_on_complete": True,
+      "disable_on_complete": False, "window": 0, "timeout": 0, "steps": 0, "start_enabled": True, "controls": [],
+      "ph_start": True, "ph_goal": True},
+     [["count"], ["setstart", 7], ["count"], ["setgoal", None], ["count"], ["setgoal", 4.5], ["setstart", None], ["reset"],
+      ["count"], ["setstart", -1.5], ["reset"], ["count"], ["count"]]),
+]
+
+
 def exhaustive(ctx, model):
     """thorough tier: every op sequence of length <= L over a small alphabet with 1- and 2-tick advances"""
     total = 0
@@ -1264,19 +1500,20 @@ def run(ctx):
             cfg = gen_cfg(r)
             ops = gen_ops(r, cfg, r.randint(6, 28))
             run_case(ctx, model, cfg, ops)
-        for flavour, nq, nt in (("delay", 220, 1600), ("tmpl", 90, 900), ("steps", 90, 900), ("down", 50, 500)):
+        for flavour, nq, nt in (("delay", 220, 1600), ("tmpl", 90, 900), ("ctl", 70, 500), ("steps", 90, 900), ("down", 50, 500)):
             for i in range(ctx.n(nq, nt)):
                 r = ctx.rng(flavour, i)
                 cfg = gen_cfg(r, None, flavour)
                 ops = gen_ops(r, cfg, r.randint(6, 28))
                 run_case(ctx, model, cfg, ops)
-        for i in range(ctx.n(70, 800)):
+        for i in range(ctx.n(110, 900)):
             r = ctx.rng("game", i)
             cfg = gen_game_cfg(r)
             ops = gen_ops(r, cfg, r.randint(8, 24))
             run_case(ctx, model, cfg, ops)
         for i in range(ctx.n(40, 400)):
             fine_case(ctx, ctx.rng("fine", i))
+        sm_c18.run(ctx, model, ctx.n(120, 1000))          # state machine devices: comparison + counters only
         for i in range(ctx.n(60, 800)):
             r = ctx.rng("mode", i)
             cfg = gen_cfg(r, "mode")
